@@ -840,7 +840,11 @@ class SymEval:
             if attr == 'imag':
                 return vmap(sp.im, base)
             if attr in ('min', 'max'):
-                return (lambda axis=None: (sp.Min if attr == 'min' else sp.Max)(*base.flat)) if True else None
+                def _minmax(axis=None, **k):
+                    if base.size == 0:
+                        raise ModelError('ValueError', 'zero-size array to reduction operation %s which has no identity' % attr)
+                    return (sp.Min if attr == 'min' else sp.Max)(*base.flat)
+                return _minmax
             if attr in ('dot', 'sum', 'copy', 'transpose', 'conjugate', 'conj', 'reshape', 'tolist', 'all', 'any', 'flatten', 'astype', 'prod'):
                 return {'dot': lambda b: np.dot(base, b), 'sum': lambda axis=None: np.sum(base, axis=axis), 'copy': lambda: base.copy(),
                         'transpose': lambda *a: base.transpose(*a), 'conjugate': lambda: vmap(sp.conjugate, base), 'conj': lambda: vmap(sp.conjugate, base),
@@ -848,6 +852,8 @@ class SymEval:
                         'flatten': lambda *a, **k: base.flatten(*a, **k), 'astype': lambda *a, **k: base, 'prod': lambda: sp.Mul(*base.flat)}[attr]
             if attr == 'ravel':
                 return lambda *a, **k: base.ravel(*a, **k)
+            if attr == 'mean':
+                return lambda axis=None, **k: (np.sum(base, axis=axis) / (S(base.size) if axis is None else S(base.shape[axis])))
             if attr == 'swapaxes':
                 return lambda a, b: base.swapaxes(a, b)
         if isinstance(base, sp.Basic):
